@@ -1,5 +1,6 @@
 import SamlModel.Props.C01
 import SamlModel.Props.C02
+import SamlModel.Props.SendBack
 set_option linter.unusedSimpArgs false
 set_option linter.unusedVariables false
 /-!
@@ -7,7 +8,7 @@ set_option linter.unusedVariables false
   (`Props.HandlerGen.handler_refines` transports the theorems about the callback model to it).
   C01's and C09's versions live in Props/C01.lean and Props/C09.lean.
 -/
-open Go Gen Consts Callback
+open Go Gen Consts Callback Redirect
 
 namespace C03
 /-- **C03 on the regenerated handler.**  `callbackHandleFunc` as regenerated from login.go on this run, in any
@@ -107,5 +108,37 @@ theorem C02_generated_handler (o : Gen.Ora) (cfg : Gen.provider_IdentityProvider
       simp [HandlerGen.lookup, HandlerGen.idOf, hx] at hrec
       subst hrec
       exact ⟨rfl, hd, hdest⟩
+
+/-- **C02 at the wire, on regenerated code end to end**: the regenerated `callbackHandleFunc` hands its one reply to the
+    regenerated `sendBackResponse`, and what that writes (`SendBack.render`, proved equal to the generated function by
+    `sendBack_renders`) is, for a request the storage knows and a stored consumer URL: with the POST binding the form
+    whose action is exactly the stored consumer URL and whose RelayState is exactly the stored one; with the Redirect
+    binding a 302 to `Lib.Url.redirectURL` of the stored consumer URL — that URL with the message parameters inserted
+    before its fragment (`C02_wire_redirect`) — carrying the stored RelayState.  No other host, path or RelayState can
+    appear, whatever the request, the user data or the keys are. -/
+theorem C02_generated_wire (o : Gen.Ora) (cfg : Gen.provider_IdentityProviderConfig) (fmt : String) (exp : Int)
+    (hsome : (CallbackGen.userinfo o).1 = none → (CallbackGen.userinfo o).2.isSome)
+    (resp : Gen.provider_Response) (m : Gen.samlp_ResponseType)
+    (ht : Gen.IdentityProvider_callbackHandleFunc o (CallbackGen.idp cfg fmt exp) = .ok [Gen.Eff.sendBackResponse (some resp) (some m)])
+    (hl : (o.m_AuthRequestByID (o.formGet "id")).2 = none) (hacs : o.m_GetAccessConsumerServiceURL ≠ "")
+    (data : Lib.Bytes) (hm : o.f_Marshal_ResponseType (some m) = (data, none)) :
+    (o.m_GetBindingType = postBinding →
+      (SendBack.render o resp (some m)).head? = some (.templateExecute
+        { RelayState := o.m_GetRelayState, SAMLResponse := Lib.b64encode data, AssertionConsumerServiceURL := o.m_GetAccessConsumerServiceURL })) ∧
+    (o.m_GetBindingType = redirectBinding → ∀ d, o.f_DeflateAndBase64 data = (d, none) →
+      SendBack.render o resp (some m) = [.httpRedirect (String.ofList (Lib.Url.redirectURL o.m_GetAccessConsumerServiceURL.toList
+        (buildQ (Lib.bytesToString d) o.m_GetRelayState resp.SigAlg resp.Signature))) 302]) := by
+  rcases C02_generated_handler o cfg fmt exp hsome resp m ht with ⟨hs, _⟩ | ⟨_, hd, _⟩
+  · rw [hl] at hs; simp at hs
+  · have hsb := SendBack.sendBack_delivers o resp (some m) data hm
+    rw [hd] at hsb
+    constructor
+    · intro hb
+      simp [deliver, hacs, hb] at hsb
+      exact hsb
+    · intro hb d hdd
+      have : ¬ redirectBinding = postBinding := by decide
+      simp [deliver, hacs, hb, this] at hsb
+      exact hsb d hdd
 
 end C02
